@@ -121,6 +121,34 @@ def hGrothVerify (mode : String) : Handler
       | some m => run (grothVerify m P e E) { peer := peer, coins := coins, trunc := trunc = 1 }))
   | _ => none
 
+/-- args.tmcg.hoogh.verify.<mode> p q g h [s] [s2] [coins] [peer] trunc [log] [crs] => verdict [sent] -/
+def hTmcgHooghVerify (mode : String) : Handler
+  | [p, q, g, h, X, Y, coins, peer, trunc, log, crs] => do
+    let p ← pInt p; let q ← pInt q; let g ← pInt g; let h ← pInt h
+    let X ← pCardList X; let Y ← pCardList Y; let coins ← pIntList coins
+    let peer ← pPeerLines peer; let trunc ← pNat trunc; let log ← pOracle log; let crs ← pCrs crs
+    let _ ← mkMode mode crs (fun _ => 0)
+    some (withOracle log fun H => showOut (do
+      let S ← mkSigmaState p q g h 0
+      match mkMode mode crs H with
+      | none => .error .oob
+      | some m => run (hooghVerifyStack m S X Y) { peer := peer, coins := coins, trunc := trunc = 1 }))
+  | _ => none
+
+/-- args.tmcg.groth.verify.<mode> p q g h le [cg] [s] [s2] [coins] [peer] trunc [log] [crs] => verdict [sent] -/
+def hTmcgGrothVerify (mode : String) : Handler
+  | [p, q, g, h, le, cg, e, E, coins, peer, trunc, log, crs] => do
+    let p ← pInt p; let q ← pInt q; let g ← pInt g; let h ← pInt h; let le ← pNat le
+    let cg ← pIntList cg; let e ← pCardList e; let E ← pCardList E; let coins ← pIntList coins
+    let peer ← pPeerLines peer; let trunc ← pNat trunc; let log ← pOracle log; let crs ← pCrs crs
+    let _ ← mkMode mode crs (fun _ => 0)
+    some (withOracle log fun H => showOut (do
+      let P ← mkGrothPub p q g h cg le
+      match mkMode mode crs H with
+      | none => .error .oob
+      | some m => run (grothVerifyStack m P e E) { peer := peer, coins := coins, trunc := trunc = 1 }))
+  | _ => none
+
 /-- args.groth.witness [idx:r,…] => [pi] [R] -/
 def hGrothWitness : Handler
   | [ss] => do
@@ -135,7 +163,9 @@ def handlers : List (String × Handler) :=
   modes.flatMap (fun m => [
     ("args.vrhe.prove." ++ m, hVrheProve m), ("args.vrhe.verify." ++ m, hVrheVerify m),
     ("args.rot.prove." ++ m, hRotProve m), ("args.rot.verify." ++ m, hRotVerify m),
-    ("args.groth.prove." ++ m, hGrothProve m), ("args.groth.verify." ++ m, hGrothVerify m)])
+    ("args.groth.prove." ++ m, hGrothProve m), ("args.groth.verify." ++ m, hGrothVerify m),
+    ("args.tmcg.hoogh.verify." ++ m, hTmcgHooghVerify m),
+    ("args.tmcg.groth.verify." ++ m, hTmcgGrothVerify m)])
   ++ [("args.hoogh.witness", hHooghWitness), ("args.groth.witness", hGrothWitness)]
 
 end Tmcg.DriverArgs
